@@ -83,3 +83,24 @@ def bounded(n):
     def deco(f):
         return f
     return deco
+
+
+class _LamArr:
+    """Native counterpart of arr_lambda: indexable total function."""
+    def __init__(self, f, args):
+        self.f, self.args = f, args
+
+    def __getitem__(self, x):
+        return self.f(*(list(self.args) + [x]))
+
+
+def arr_lambda(f, *args):
+    return _LamArr(f, args)
+
+
+def forall(kind, fn):
+    raise NotImplementedError('forall over an infinite domain cannot be evaluated natively')
+
+
+def lemma_forall(lem):
+    pass
